@@ -81,7 +81,7 @@ func runC07(c *Ctx) {
 	r := c.R
 	r.Rule = "scripted per-key histories (single ttl 1..400 ms, no ttl, negative ttl, ttl replaced by longer/shorter/none, delete+re-insert, refresh, insert applied late with the applier held past the expiry) with observations by Get/GetTTL/IterValues before, around and after the expiration and before/after the sweep; each observation is judged with sound wall-time brackets; distinct by (script, step, observer, region in {must-hit, must-miss, band}); non-trivial when the region is must-hit or must-miss"
 	ristretto.VerifSetBucketSeconds(1) // sweeps every 0.5 s, 1-second buckets: expired entries meet the sweep within the scripts
-	rounds := c.N(4, 40)
+	rounds := c.N(4, 24)
 	for round := 0; round < rounds; round++ {
 		rng := c.rng(700 + uint64(round))
 		var scripts []c07Script
